@@ -21,7 +21,7 @@ import subprocess
 import sys
 
 VERIF = os.path.dirname(os.path.dirname(os.path.abspath(__file__)))
-VARIANTS = ('plain', 'opt', 'opt2', 'warp', 'werror', 'clocale', 'dev')
+VARIANTS = ('plain', 'opt', 'opt2', 'warp', 'werror', 'clocale', 'dev', 'debuglog', 'asciiout')
 
 
 # ------------------------------------------------------------------ the virtual clock
@@ -268,7 +268,7 @@ def item_chunks(mido, out):
                 if seen >= 2:
                     break
     # resynchronisation: after any prefix a complete message is recognised
-    for pre in ([0x90, 60], [0xf0, 1, 2], [0xe0], [0xf2, 1], [0xfe, 0xf0], [0xfe, 0x90]):
+    for pre in ([0x90, 60], [0xf0, 1, 2], [0xe0], [0xf2, 1], [0xfe, 0xf0], [0xfe, 0x90], [0xf0, 0x7e, 1, 2, 3], [0xf0, 1, 2, 0xf8, 3]):
         for name, f in _feed_ways(mido):
             for m in (M('note_on', channel=1, note=5, velocity=6), M('sysex', data=(9, 8)), M('songpos', pos=300)):
                 b = m.bytes()
@@ -307,7 +307,7 @@ def item_smf(mido, out):
             b2 = io.BytesIO()
             back.save(file=b2)
         except Exception as e:
-            out.append(('C07', 'smf', 'charset %s: save/load raises %r' % (charset, e)))
+            out.append(('C07|C08', 'smf', 'charset %s: save / load / load with debug output raises %r' % (charset, e)))
             continue
         if [list(t) for t in back.tracks] != [list(t) for t in mid.tracks] or back.type != 1 or back.ticks_per_beat != 96:
             out.append(('C07', 'smf', 'charset %s: loaded %s' % (charset, _s([list(t) for t in back.tracks]))))
@@ -316,6 +316,23 @@ def item_smf(mido, out):
         data = b1.getvalue()
         if data[:14] != b'MThd\x00\x00\x00\x06\x00\x01\x00\x02\x00\x60' or data.count(b'MTrk') < 2:
             out.append(('C08', 'smf', 'charset %s: header bytes %r' % (charset, data[:14])))
+    # the same with debug output on - it goes to the real stdout of this interpreter, so the file has
+    # ASCII texts only (a stdout that cannot encode a text cannot print it, whoever prints) but plenty of
+    # bytes above 0xa0 in its numbers and payloads
+    mid = mido.MidiFile(type=1, ticks_per_beat=0x7fff)
+    mid.tracks.append(mido.MidiTrack([MM('track_name', name='plain', time=0), MM('set_tempo', tempo=0xa9ffe9, time=0xfffff),
+                                      MM('sequencer_specific', data=(0xa1, 0xe9, 0xff, 0xb5), time=0), mido.UnknownMetaMessage(0x7e, data=(0xc3, 0xa9), time=0),
+                                      MM('sequence_number', number=0xfeff, time=0), M('sysex', data=(0x7f, 0x7e), time=0xa9),
+                                      M('pitchwheel', channel=15, pitch=8191, time=0), MM('end_of_track', time=0)]))
+    try:
+        b = io.BytesIO()
+        mid.save(file=b)
+        quiet = mido.MidiFile(file=io.BytesIO(b.getvalue()))
+        loud = mido.MidiFile(file=io.BytesIO(b.getvalue()), debug=True)
+        if [list(t) for t in loud.tracks] != [list(t) for t in quiet.tracks] or [list(t) for t in quiet.tracks] != [list(t) for t in mid.tracks]:
+            out.append(('C08', 'smf', 'with debug=True the file loads as %s' % _s([list(t) for t in loud.tracks])))
+    except Exception as e:
+        out.append(('C08', 'smf', 'loading a file with ASCII texts and high bytes in its payloads with debug=True raises %r' % (e,)))
     for m in (MM('set_tempo', tempo=16777215), MM('sequence_number', number=65535), MM('midi_port', port=255),
               MM('channel_prefix', channel=255), MM('time_signature', numerator=255, denominator=2 ** 15, clocks_per_click=255,
                                                     notated_32nd_notes_per_beat=255), MM('key_signature', key='Cb'),
@@ -703,6 +720,11 @@ def _s(x, limit=240):
 def child(variant, items):
     if variant == 'warp':
         install_clock()
+    if variant == 'debuglog':
+        # an application that has switched on debug logging for everything
+        import logging
+        logging.basicConfig(level=logging.DEBUG, stream=open(os.devnull, 'w'))
+        logging.getLogger().setLevel(logging.DEBUG)
     sys.path.insert(0, VERIF)
     from vf import core
     mido = core.import_mido()
@@ -728,7 +750,7 @@ def child(variant, items):
 
 def run_child(variant, items, timeout=300):
     flags = {'plain': [], 'opt': ['-O'], 'opt2': ['-OO'], 'warp': [], 'werror': ['-W', 'error'], 'clocale': [],
-             'dev': ['-X', 'dev']}[variant]
+             'dev': ['-X', 'dev'], 'debuglog': [], 'asciiout': []}[variant]
     env = dict(os.environ)
     env.pop('PYTHONOPTIMIZE', None)
     if variant == 'clocale':
@@ -736,6 +758,8 @@ def run_child(variant, items, timeout=300):
         env.pop('PYTHONIOENCODING', None)
     if variant == 'dev':
         env['PYTHONHASHSEED'] = '12345'
+    if variant == 'asciiout':
+        env['PYTHONIOENCODING'] = 'ascii'
     p = subprocess.run([sys.executable] + flags + ['-m', 'vf.variants', variant] + list(items), cwd=VERIF, env=env,
                        stdout=subprocess.PIPE, stderr=subprocess.PIPE, text=True, timeout=timeout)
     for line in p.stdout.splitlines():
@@ -771,7 +795,8 @@ def check(ctx, pid):
 DESCR = {'plain': 'started plainly', 'opt': 'python -O', 'opt2': 'python -OO',
          'warp': 'wall clock read seconds later at every reading, sleep() returning late',
          'werror': 'python -W error (warnings are exceptions)', 'clocale': 'LC_ALL=C, PYTHONUTF8=0',
-         'dev': 'python -X dev, another hash seed'}
+         'dev': 'python -X dev, another hash seed', 'debuglog': 'logging.basicConfig(level=DEBUG) before mido is imported',
+         'asciiout': 'PYTHONIOENCODING=ascii (a stdout that cannot encode Latin-1 letters)'}
 
 
 def replay(case):
